@@ -99,6 +99,7 @@ structure Inv (h0 h : Heap) (x y : Loc) (R : Loc → Prop) : Prop where
   sep : ∀ b, R b → ¬ HReach h0 y b
   rootIn : R x
   closedR : ∀ a, R a → ∀ o, h a = some o → ∀ b ∈ o.refs, R b
+  allocR : ∀ a, R a → h a ≠ none
 
 theorem Inv.cover {h0 h : Heap} {x y : Loc} {R : Loc → Prop} (inv : Inv h0 h x y R) :
     ∀ b, HReach h x b → R b := by
@@ -119,7 +120,7 @@ theorem step_preserves (h0 h : Heap) (x y : Loc) (R : Loc → Prop) (s : Step)
       have := inv.same _ hy
       rw [h1] at this
       exact halloc _ hy this.symm
-  refine ⟨?_, ?_, Or.inl inv.rootIn, ?_⟩
+  refine ⟨?_, ?_, Or.inl inv.rootIn, ?_, ?_⟩
   · intro l hy
     unfold put
     by_cases hls : l = s.l
@@ -138,6 +139,14 @@ theorem step_preserves (h0 h : Heap) (x y : Loc) (R : Loc → Prop) (s : Step)
     · simp only [hal, if_false] at hcell
       rcases ha with h1 | h1
       · exact Or.inl (inv.closedR a h1 o hcell b hmem)
+      · exact absurd h1 hal
+  · intro a ha
+    unfold put
+    by_cases hal : a = s.l
+    · simp [hal]
+    · simp only [hal, if_false]
+      rcases ha with h1 | h1
+      · exact inv.allocR a h1
       · exact absurd h1 hal
 
 theorem history_preserves (h0 : Heap) (x y : Loc) (halloc : ∀ l, HReach h0 y l → h0 l ≠ none)
@@ -168,17 +177,41 @@ theorem reach_same (h0 h : Heap) (y : Loc) (same : ∀ l, HReach h0 y l → h l 
     for mutations through `y`). -/
 theorem C18_frame (h0 : Heap) (x y : Loc) (ops : List Step) (hf : Heap) (Rf : Loc → Prop)
     (halloc : ∀ l, HReach h0 y l → h0 l ≠ none)
+    (hallocx : ∀ l, HReach h0 x l → h0 l ≠ none)
     (hsep : ∀ b, HReach h0 x b → ¬ HReach h0 y b)
     (hist : History h0 (HReach h0 x) ops hf Rf) :
     (∀ l, HReach h0 y l → hf l = h0 l) ∧
     (∀ l, HReach hf y l ↔ HReach h0 y l) ∧
-    (∀ b, HReach hf x b → ¬ HReach hf y b) := by
+    (∀ b, HReach hf x b → ¬ HReach hf y b) ∧
+    (∀ b, HReach hf x b → hf b ≠ none) ∧ (∀ b, HReach hf y b → hf b ≠ none) := by
   have inv0 : Inv h0 h0 x y (HReach h0 x) :=
-    ⟨fun _ _ => rfl, hsep, HReach.root, fun a ha o hc b hb => HReach.step ha hc hb⟩
+    ⟨fun _ _ => rfl, hsep, HReach.root, fun a ha o hc b hb => HReach.step ha hc hb, hallocx⟩
   have inv := history_preserves h0 x y halloc hist inv0
-  refine ⟨inv.same, reach_same h0 hf y inv.same, ?_⟩
-  intro b hb hy
-  exact inv.sep b (inv.cover b hb) ((reach_same h0 hf y inv.same b).mp hy)
+  have hre := reach_same h0 hf y inv.same
+  refine ⟨inv.same, hre, ?_, ?_, ?_⟩
+  · intro b hb hy
+    exact inv.sep b (inv.cover b hb) ((hre b).mp hy)
+  · intro b hb
+    exact inv.allocR b (inv.cover b hb)
+  · intro b hb
+    have h0b := (hre b).mp hb
+    rw [inv.same b h0b]
+    exact halloc b h0b
+
+/-- **The frame composes.** What `C18_frame` concludes about the final heap is exactly what it
+    assumes about the initial one, with `x` and `y` exchanged: both regions allocated and
+    disjoint. So it applies again to a history of mutations through `y`, then through `x`
+    again, and so on: in any alternation of mutation rounds on either side, a round never
+    changes a cell the other side reaches. -/
+theorem C18_frame_composes (h0 : Heap) (x y : Loc) (ops : List Step) (hf : Heap) (Rf : Loc → Prop)
+    (halloc : ∀ l, HReach h0 y l → h0 l ≠ none)
+    (hallocx : ∀ l, HReach h0 x l → h0 l ≠ none)
+    (hsep : ∀ b, HReach h0 x b → ¬ HReach h0 y b)
+    (hist : History h0 (HReach h0 x) ops hf (Rf)) :
+    (∀ l, HReach hf x l → hf l ≠ none) ∧ (∀ l, HReach hf y l → hf l ≠ none) ∧
+    (∀ b, HReach hf y b → ¬ HReach hf x b) := by
+  obtain ⟨_, _, h3, h4, h5⟩ := C18_frame h0 x y ops hf Rf halloc hallocx hsep hist
+  exact ⟨h4, h5, fun b hy hx => h3 b hx hy⟩
 
 /-- non-vacuity: a two-object source `x = 0 → 1`, an independent copy `y = 2 → 3`; `x` rewrites its
     child and allocates a new one — the hypotheses hold and the history is allowed -/
